@@ -9,7 +9,6 @@ import (
 
 	"github.com/bronlabs/bron-crypto/pkg/base/algebra"
 	ds "github.com/bronlabs/bron-crypto/pkg/base/datastructures"
-	"github.com/bronlabs/bron-crypto/pkg/base/datastructures/bitset"
 	"github.com/bronlabs/bron-crypto/pkg/base/datastructures/hashset"
 	"github.com/bronlabs/bron-crypto/pkg/base/mat"
 	"github.com/bronlabs/bron-crypto/pkg/base/utils/sliceutils"
@@ -180,9 +179,7 @@ func InducedMSP[E algebra.PrimeFieldElement[E]](f algebra.PrimeField[E], c *CNF)
 	// (e.g. Gennaro DKG over KW).
 	sortedMUS := slices.Clone(c.maximalUnqualifiedSets)
 	slices.SortFunc(sortedMUS, func(a, b ds.Set[ID]) int {
-		ba := bitset.NewImmutableBitSet(a.List()...)
-		bb := bitset.NewImmutableBitSet(b.List()...)
-		return cmp.Compare(uint64(ba), uint64(bb))
+		return compareAsBitSets(a.List(), b.List())
 	})
 
 	m := len(sortedMUS)
@@ -238,4 +235,23 @@ func InducedMSP[E algebra.PrimeFieldElement[E]](f algebra.PrimeField[E], c *CNF)
 		return nil, errs.Wrap(err).WithMessage("failed to create MSP from CNF access structure")
 	}
 	return out, nil
+}
+
+// compareAsBitSets orders two ID sets as the integers whose set bits are the
+// IDs (the order a 64-bit bitset gives for IDs up to 64), without bounding the IDs:
+// the set with the larger element in the first position where the descending
+// element lists differ is larger, and a proper prefix is smaller.
+func compareAsBitSets(a, b []ID) int {
+	a, b = slices.Clone(a), slices.Clone(b)
+	slices.Sort(a)
+	slices.Sort(b)
+	i, j := len(a)-1, len(b)-1
+	for i >= 0 && j >= 0 {
+		if c := cmp.Compare(a[i], b[j]); c != 0 {
+			return c
+		}
+		i--
+		j--
+	}
+	return cmp.Compare(i, j)
 }
